@@ -230,6 +230,16 @@ def gen_semantic_soup(rng):
         lambda: "X = %s + (%s(1) * -%s(2))" % (n, n, n),
         lambda: "IF (%s(1)) THEN PRINT %s ELSE %s = 1" % (n, n, n),
         lambda: "WHILE %s(1, 2) < 0\nWEND" % n,
+        # calls in property owners, DIM bounds, undefined string functions, records where a value is needed, whole arrays as targets
+        lambda: "PRINT %s(%s).Value" % (n, rng.choice(["INSTR(1, 2)", "VAL(5)", "LEN(5, 6)", n + "(1, 2)", "1"])),
+        lambda: "%s(%s).Suit = \"x\"" % (n, rng.choice(["INSTR(1, 2)", "VAL(5)", "1"])),
+        lambda: "%s %s(%s)" % (rng.choice(["DIM", "REDIM"]), rng.choice([n, "ZD"]), rng.choice(["INSTR(1, 2)", "VAL(5)", "1 TO LEN(5, 6)", n + "(1, 2, 3)", "LEN(\"ab\")"])),
+        lambda: "%s = %s$(1)" % (rng.choice(["A$", "X", n + "$"]), n.replace(".", "")),
+        lambda: "PRINT %s(%s$(%s))" % (rng.choice(["UCASE$", "VAL", "LEN"]), n.replace(".", ""), rng.choice(["1", "\"a\"", ""])),
+        lambda: "DIM R1 AS Card\nDIM R2 AS Card\nSELECT CASE %s\nCASE %s\nEND SELECT" % (rng.choice(["R1", n]), rng.choice(["R2", "1", n])),
+        lambda: "%s %s" % (rng.choice(["LINE INPUT", "INPUT", "READ"]), rng.choice([n + "$()", n + "()", "ARR()", n + "().Value"])),
+        lambda: "ENVIRON %s" % rng.choice(['"=x"', '"A=1"', '""', '"A" + CHR$(0) + "=1"', n]),
+        lambda: "KILL %s(1)" % n,
         # array parameters and arrays that cannot exist
         lambda: "SUB SA (P%s())\nP%s(1) = 1\nEND SUB" % (rng.choice(["%", "$", "!"]), rng.choice(["%", "$", "!"])),
         lambda: "SA %s" % rng.choice([n + "()", "(" + n + "())", "ARR()", "(ARR())", n, n + "(1)"]),
